@@ -423,11 +423,19 @@ func runC01(r *vf.Runner) {
 					if !r.Quick() && len(chain) == 3 && ci%5 != 0 {
 						continue
 					}
-					sp := genChain(rnd.Fork(), src, chain, rows, sh)
-					if sp == nil {
-						continue
-					}
-					run(c01case{Conf: localP4, Spec: *sp, Why: "chain"})
+					f := rnd.Fork()
+					src, chain, rows, sh := src, chain, rows, sh
+					r.CaseLazy(func() any {
+						sp := genChain(f, src, chain, rows, sh)
+						if sp == nil {
+							return c01case{Conf: localP4, Why: "chain-not-applicable"}
+						}
+						return c01case{Conf: localP4, Spec: *sp, Why: "chain"}
+					}, func(t *vf.T, d any) {
+						if c := d.(c01case); len(c.Spec.Nodes) > 0 {
+							runC01case(t, pool, c)
+						}
+					})
 				}
 			}
 		}
